@@ -1,11 +1,14 @@
 (* Properties/C12.v -- C12: the elastic symmetry decomposition is correct and frame
-   independent.  Only statements; each is closed by `exact` of a lemma of Proofs_decomp.v / Proofs_decomp2.v.
-   The frame clause for rotated orthorhombic tensors (sccs_is_R, mono = tric = 0, the
-   reported axis is +- a column of the rotation) is proved in Proofs_decomp2.v; what stays
-   open is named _partial below (see docs/C12.md). *)
+   independent.  Only statements; each is closed by `exact` of a lemma of Proofs_decomp.v /
+   Proofs_decomp2.v / Proofs_decomp3.v.
+   The frame clause for rotated orthorhombic tensors is complete: sccs_is_R, mono = tric = 0
+   (Proofs_decomp2.v); the candidate distances depend only on the axis put third, the strict-<
+   loop selects the strict minimum, hence the reported hexagonal axis co-rotates and all eight
+   reported numbers are the same in both frames; the sum rule on the whole function
+   (Proofs_decomp3.v).  See docs/C12.md. *)
 From Coq Require Import Reals ZArith List.
 From PV Require Import Num NumR Model_voigt Model_decomp Proofs_tensors_alg Proofs_tensors_rot
-  Proofs_tensors_maps Proofs_tensors_proj Inst_tensors Proofs_decomp Proofs_decomp2.
+  Proofs_tensors_maps Proofs_tensors_proj Inst_tensors Proofs_decomp Proofs_decomp2 Proofs_decomp3.
 From PV.gen Require Import Gen_tensors.
 Import ListNotations.
 Open Scope R_scope.
@@ -113,12 +116,9 @@ Theorem C12_ortho_mono_tric_vanish :
   nth 6 out 0 = 0 /\ nth 7 out 0 = 0.
 Proof. exact ec1_mono_tric_vanish. Qed.
 
-(* hex_axis_corotates, PARTIAL: the reported hexagonal axis (indices 8..10) is +- Rq e_k for
-   some k, i.e. the image under Rq of a coordinate axis of the orthorhombic frame (+- e_k is what
-   the unrotated run, Rq = I, can report).  OPEN: that k is the SAME index in the rotated and
-   the unrotated run (needs: the distance to the hexagonal projection of a candidate depends
-   only on which axis is third, and a strict minimum among the three). *)
-Theorem C12_hex_axis_corotates_partial :
+(* whichever candidate is selected (ties allowed): the reported hexagonal axis (indices 8..10)
+   is +- Rq e_k for some k, the image under Rq of a coordinate axis of the orthorhombic frame *)
+Theorem C12_hex_axis_is_frame_axis :
   forall (M Ed Ev Rq : arr NumR) (T0 : T4) (mud muv : nat -> R) out,
   let vm := k_upper_tri_to_symmetric_6 M in
   sym6 vm -> ortho4 T0 -> orth (mat3 Rq) ->
@@ -130,6 +130,109 @@ Theorem C12_hex_axis_corotates_partial :
   exists k sgn, (k < 3)%nat /\ pm1 sgn /\
     forall a, (a < 3)%nat -> nth (8 + a) out 0 = sgn * mat3 Rq a k.
 Proof. exact ec1_hex_axis. Qed.
+
+(* candidate_distance.  hex_dist T0 k = | v - hex (tetr (ortho (mono v))) |  for the 21-vector v
+   of T0 with its axes listed as (k+1, k+2, k), i.e. axis k put third.  In ANY admissible run on
+   the rotated tensor, the six norms frame_parts computes for candidate i (distance to the
+   hexagonal projection, triclinic .. hexagonal parts) are those of the canonical candidate of
+   the axis k = pi ((i+2) mod 3) that candidate i puts third -- the signs the eigh oracles chose
+   and the order of the first two axes do not matter -- and the axis it would report is +- Rq e_k *)
+Theorem C12_candidate_distance :
+  forall (vm Ed Ev Rq : arr NumR) (T0 : T4) (mud muv : nat -> R),
+  sym6 vm -> ortho4 T0 -> orth (mat3 Rq) ->
+  eq4b (t4 (k_voigt_to_elastic_tensor vm)) (rot4 T0 (mat3 Rq)) ->
+  distinct3 (fun k => dil4 T0 k k) -> distinct3 (fun k => dev4 T0 k k) ->
+  orth (mat3 Ed) -> eigcols (mat3 (fst (k_voigt_decompose vm))) (mat3 Ed) mud ->
+  orth (mat3 Ev) -> eigcols (mat3 (snd (k_voigt_decompose vm))) (mat3 Ev) muv ->
+  exists pi s, signed_cols Ed Rq pi s /\
+    forall i K G delta tric mono ortho tetr hex,
+      @frame_parts NumR vm (@iso_vector NumR K G) (@sccs_rotation NumR Ed Ev i)
+        = Ok (delta, (tric, mono, ortho, tetr, hex)) ->
+      delta = hex_dist T0 (pi ((i + 2) mod 3)) /\
+      [delta; tric; mono; ortho; tetr; hex] = cand3 T0 (@iso_vector NumR K G) (pi ((i + 2) mod 3)) /\
+      forall a, (a < 3)%nat ->
+        @sccs_rotation NumR Ed Ev i (6 + a)%nat = s ((i + 2) mod 3) * mat3 Rq a (pi ((i + 2) mod 3)).
+Proof. exact candidate_distance. Qed.
+
+(* hex_axis_corotates, FULL.  Two runs of the whole function: on the orthorhombic tensor in its
+   own frame (M0, any admissible eigh outputs Ed0 Ev0, result out0) and on the same tensor seen
+   in the frame Rq (M, any admissible Ed Ev, result out).  The property's own exclusion of ties
+   is the hypothesis that the three candidate distances of the UNROTATED tensor have a strict
+   minimum (strict_min3 D k := k < 3 /\ forall k' < 3, k' <> k -> D k < D k').  Then the axis
+   reported for the rotated tensor is  +- Rq . (axis reported for the unrotated tensor). *)
+Theorem C12_hex_axis_corotates :
+  forall (M0 Ed0 Ev0 M Ed Ev Rq : arr NumR) (mud0 muv0 mud muv : nat -> R) (out0 out : list R),
+  let vm0 := k_upper_tri_to_symmetric_6 M0 in
+  let vm := k_upper_tri_to_symmetric_6 M in
+  let T0 := t4 (k_voigt_to_elastic_tensor vm0) in
+  sym6 vm0 -> ortho4 T0 ->
+  distinct3 (fun k => dil4 T0 k k) -> distinct3 (fun k => dev4 T0 k k) ->
+  (exists kst, strict_min3 (hex_dist T0) kst) ->
+  orth (mat3 Ed0) -> eigcols (mat3 (fst (k_voigt_decompose vm0))) (mat3 Ed0) mud0 ->
+  orth (mat3 Ev0) -> eigcols (mat3 (snd (k_voigt_decompose vm0))) (mat3 Ev0) muv0 ->
+  @elasticity_components1 NumR M0 Ed0 Ev0 = Ok out0 ->
+  sym6 vm -> orth (mat3 Rq) -> eq4b (t4 (k_voigt_to_elastic_tensor vm)) (rot4 T0 (mat3 Rq)) ->
+  orth (mat3 Ed) -> eigcols (mat3 (fst (k_voigt_decompose vm))) (mat3 Ed) mud ->
+  orth (mat3 Ev) -> eigcols (mat3 (snd (k_voigt_decompose vm))) (mat3 Ev) muv ->
+  @elasticity_components1 NumR M Ed Ev = Ok out ->
+  exists sgn, pm1 sgn /\
+    forall a, (a < 3)%nat ->
+      nth (8 + a) out 0 = sgn * sum3 (fun b => mat3 Rq a b * nth (8 + b) out0 0).
+Proof. exact ec1_hex_axis_corotates. Qed.
+
+(* frame independence of ALL reported numbers for orthorhombic tensors: under the same
+   hypotheses K, G, percent anisotropy and the five class percentages (outputs 0..7) of the
+   rotated run equal those of the unrotated run *)
+Theorem C12_ortho_outputs_frame_invariant :
+  forall (M0 Ed0 Ev0 M Ed Ev Rq : arr NumR) (mud0 muv0 mud muv : nat -> R) (out0 out : list R),
+  let vm0 := k_upper_tri_to_symmetric_6 M0 in
+  let vm := k_upper_tri_to_symmetric_6 M in
+  let T0 := t4 (k_voigt_to_elastic_tensor vm0) in
+  sym6 vm0 -> ortho4 T0 ->
+  distinct3 (fun k => dil4 T0 k k) -> distinct3 (fun k => dev4 T0 k k) ->
+  (exists kst, strict_min3 (hex_dist T0) kst) ->
+  orth (mat3 Ed0) -> eigcols (mat3 (fst (k_voigt_decompose vm0))) (mat3 Ed0) mud0 ->
+  orth (mat3 Ev0) -> eigcols (mat3 (snd (k_voigt_decompose vm0))) (mat3 Ev0) muv0 ->
+  @elasticity_components1 NumR M0 Ed0 Ev0 = Ok out0 ->
+  sym6 vm -> orth (mat3 Rq) -> eq4b (t4 (k_voigt_to_elastic_tensor vm)) (rot4 T0 (mat3 Rq)) ->
+  orth (mat3 Ed) -> eigcols (mat3 (fst (k_voigt_decompose vm))) (mat3 Ed) mud ->
+  orth (mat3 Ev) -> eigcols (mat3 (snd (k_voigt_decompose vm))) (mat3 Ev) muv ->
+  @elasticity_components1 NumR M Ed Ev = Ok out ->
+  forall n, (n < 8)%nat -> nth n out 0 = nth n out0 0.
+Proof. exact ec1_outputs_frame_invariant. Qed.
+
+(* the sum rule on the WHOLE function: hex^2 + tetr^2 + ortho^2 + mono^2 + tric^2 = aniso^2
+   (percentages, outputs 3..7 and 2) for every symmetric input whose three candidate rotations
+   are orthogonal ... *)
+Theorem C12_sum_rule_orthogonal_sccs :
+  forall (M Ed Ev : arr NumR) out,
+  let vm := k_upper_tri_to_symmetric_6 M in
+  sym6 vm -> (forall i, (i < 3)%nat -> orth (mat3 (@sccs_rotation NumR Ed Ev i))) ->
+  @elasticity_components1 NumR M Ed Ev = Ok out ->
+  nth 3 out 0 * nth 3 out 0 + nth 4 out 0 * nth 4 out 0 + nth 5 out 0 * nth 5 out 0
+  + nth 6 out 0 * nth 6 out 0 + nth 7 out 0 * nth 7 out 0
+  = nth 2 out 0 * nth 2 out 0.
+Proof. exact ec1_sum_rule_orth. Qed.
+
+(* ... in particular for every rotated orthorhombic tensor, in any admissible run (ties allowed) *)
+Theorem C12_ortho_sum_rule :
+  forall (M Ed Ev Rq : arr NumR) (T0 : T4) (mud muv : nat -> R) out,
+  let vm := k_upper_tri_to_symmetric_6 M in
+  sym6 vm -> ortho4 T0 -> orth (mat3 Rq) ->
+  eq4b (t4 (k_voigt_to_elastic_tensor vm)) (rot4 T0 (mat3 Rq)) ->
+  distinct3 (fun k => dil4 T0 k k) -> distinct3 (fun k => dev4 T0 k k) ->
+  orth (mat3 Ed) -> eigcols (mat3 (fst (k_voigt_decompose vm))) (mat3 Ed) mud ->
+  orth (mat3 Ev) -> eigcols (mat3 (snd (k_voigt_decompose vm))) (mat3 Ev) muv ->
+  @elasticity_components1 NumR M Ed Ev = Ok out ->
+  nth 3 out 0 * nth 3 out 0 + nth 4 out 0 * nth 4 out 0 + nth 5 out 0 * nth 5 out 0
+  + nth 6 out 0 * nth 6 out 0 + nth 7 out 0 * nth 7 out 0
+  = nth 2 out 0 * nth 2 out 0.
+Proof. exact ec1_ortho_sum_rule. Qed.
+
+(* pairwise different candidate distances are enough for the strict-minimum hypothesis *)
+Theorem C12_distinct_gives_strict_min : forall D : nat -> R,
+  D 0%nat <> D 1%nat -> D 0%nat <> D 2%nat -> D 1%nat <> D 2%nat -> exists k, strict_min3 D k.
+Proof. exact distinct_strict_min. Qed.
 
 (* non-vacuity *)
 Example C12_nonvacuous : sym6 (fun _ : nat => 1) /\ orth (mat3 (@eye3 NumR)) /\
@@ -144,3 +247,22 @@ Example C12_frame_nonvacuous :
   eq4b (t4 (k_voigt_to_elastic_tensor vm)) (rot4 T0 (mat3 (@eye3 NumR))) /\
   distinct3 (fun k => dil4 T0 k k) /\ distinct3 (fun k => dev4 T0 k k).
 Proof. exact C12_frame_nonvacuous_proof. Qed.
+
+(* ALL hypotheses of C12_hex_axis_corotates / C12_ortho_outputs_frame_invariant are jointly
+   satisfiable: diag(1,2,4,1,1,1) (squared candidate distances 5/2, 37/8, 5/8: strict minimum at
+   axis 2) with both eigh oracles returning the identity, in the identity frame (take M = M0,
+   Rq = Ed = Ev = I, out = out0 for the rotated run) -- the function returns Ok *)
+Example C12_corotation_nonvacuous :
+  let M0 := M_ortho_example2 in
+  let vm0 := k_upper_tri_to_symmetric_6 M0 in
+  let T0 := t4 (k_voigt_to_elastic_tensor vm0) in
+  let I3 := @eye3 NumR in
+  exists mud muv out,
+    sym6 vm0 /\ ortho4 T0 /\
+    distinct3 (fun k => dil4 T0 k k) /\ distinct3 (fun k => dev4 T0 k k) /\
+    (exists kst, strict_min3 (hex_dist T0) kst) /\
+    orth (mat3 I3) /\ eq4b (t4 (k_voigt_to_elastic_tensor vm0)) (rot4 T0 (mat3 I3)) /\
+    eigcols (mat3 (fst (k_voigt_decompose vm0))) (mat3 I3) mud /\
+    eigcols (mat3 (snd (k_voigt_decompose vm0))) (mat3 I3) muv /\
+    @elasticity_components1 NumR M0 I3 I3 = Ok out.
+Proof. exact C12_run_nonvacuous_proof. Qed.
